@@ -73,6 +73,14 @@ CHECKS['C14'] = dict(
     design_ref='DESIGN.md 4/C14',
     note='Trusted: MIR = code; io stubs; std builtins. Outside: bytes on disk / partial writes; json, yaml, toml, xml converters in this harness (C03/C12 cover their value mapping).',
     technique='symbolic execution of the binary crate\'s MIR; obligations over the recorded create/write events decided per path; replay with the real binary over a pre-existing artifact')
+CHECKS['C16'] = dict(
+    category='model_checking',
+    text='The binary crate\'s real build_command is executed from MIR on small projects (entry files with out statements, a shared library, a file that is both built and imported, failing and '
+         'conditionally failing files; symbolic integer leaves) for every ordered pair and selected/all triples of files, with one shared Environment (opcode, value and shape caches, output locks) — '
+         'and each file alone with a fresh one. Relational obligation per path: same success/failure and piece-identical artifact bytes per file in the batch as alone; exit status consistent.',
+    design_ref='DESIGN.md 4/C16',
+    note='Trusted: MIR = code; io stubs; a fresh Environment stands for a fresh process; std builtins. Outside: artifacts on disk, separate invocations, directory recursion, diagnostics text.',
+    technique='symbolic execution of the binary crate\'s MIR; relational batch-vs-alone check over recorded events, decided per path; replay with the real binary (bounded: project, batch length)')
 NOT_APPLICABLE = {
 }
 ALL = ['C%02d' % i for i in range(1, 21)]
